@@ -121,6 +121,20 @@ def doc_site(doc: Optional[str]) -> Optional[int]:
 
 # ------------------------------------------------------------------------------------- real builder
 def pd_tables(sources: List[str]) -> List[Dict[str, Any]]:
+    """Build all sources in one System; if the builder raises, build them one by one and mark the culprits."""
+    try:
+        return _pd_tables(sources)
+    except Exception:
+        if len(sources) == 1:
+            import traceback
+            return [{"crash": traceback.format_exc()[-1200:]}]
+        out: List[Dict[str, Any]] = []
+        for s in sources:
+            out.extend(pd_tables([s]))
+        return out
+
+
+def _pd_tables(sources: List[str]) -> List[Dict[str, Any]]:
     from pydoctor import model
     system = model.System()
     system.options.quietness = 0
@@ -310,7 +324,7 @@ def run(ctx: Ctx) -> int:
     progs = r.printed
     if ctx.quick:
         # a sample of 3-statement programs on top of the exhaustive 2-statement space
-        r3 = ctx.tlc("Builder", CFG.format(maxn=3, names=tla({"a"}), kinds=tla({"def", "cm", "prop", "setter", "class", "assign", "if", "ifmain", "try"})),
+        r3 = ctx.tlc("Builder", CFG.format(maxn=3, names=tla({"a"}), kinds=tla({"def", "cm", "prop", "setter", "class", "assign", "oldsm", "if", "ifmain", "try"})),
                      workers="auto", check=True, timeout=3000)
         progs = progs + r3.printed
     ctx.exhaustive = True
@@ -336,6 +350,11 @@ def run(ctx: Ctx) -> int:
                 raise MachineryError(f"program marked Importable by the spec fails in CPython: {c['error']}\n{src}")
             if slim(c) != py:
                 raise MachineryError(f"PyExec (Builder.tla) disagrees with CPython:\n{src}\nspec {py}\ncpython {slim(c)}")
+            if "crash" in d:
+                last = d["crash"].strip().splitlines()[-1]
+                ctx.violation({"invariant": "BuilderDoesNotAbort", "program": {k: p[k] for k in ("n", "parent", "kind", "nm")},
+                               "source": src, "exception": d["crash"], "diff": [], "key": "crash:" + last[:80]})
+                continue
             real = slim(d)
             if real != spec_table(p["pd"]):
                 ctx.drift_note({"source": src, "spec_documented": spec_table(p["pd"]), "real": real})
@@ -383,7 +402,7 @@ def replay(ctx: Ctx, path: str) -> int:
     src = w["source"]
     cp = cpython_tables(ctx, [src])[0]
     pd = pd_tables([src])[0]
-    bad = slim(cp) != slim(pd)
+    bad = "crash" in pd or slim(cp) != slim(pd)
     print("replay:", "still differs" if bad else "holds now")
     if bad:
         print(f"VIOLATION property=C03 replay={path}")
